@@ -19,7 +19,14 @@ pub enum Edit {
     /// remove these present mandatory groups
     Remove(Vec<usize>),
     /// insert `[tag][BER length][payload]` at gap `at` of the tagged part
-    Foreign { at: usize, tag: u16, payload: Vec<u8> },
+    /// (`bare`: the tag byte(s) alone, the next known group directly behind them)
+    Foreign {
+        at: usize,
+        tag: u16,
+        payload: Vec<u8>,
+        #[serde(default)]
+        bare: bool,
+    },
 }
 
 /// indices (into the level's group list) of the tagged groups that produced bytes, in canonical order
@@ -29,10 +36,12 @@ fn present_tagged(gs: &[Group]) -> Vec<usize> {
 fn positional(gs: &[Group]) -> Vec<usize> {
     gs.iter().enumerate().filter(|(_, g)| g.tag.is_none()).map(|(i, _)| i).collect()
 }
-fn foreign_group(tag: u16, payload: &[u8]) -> Group {
+fn foreign_group(tag: u16, payload: &[u8], bare: bool) -> Group {
     let mut raw = tag_bytes(tag);
-    raw.push(payload.len() as u8);
-    raw.extend_from_slice(payload);
+    if !bare {
+        raw.push(payload.len() as u8);
+        raw.extend_from_slice(payload);
+    }
     Group { field: usize::MAX, name: "<foreign>".into(), tag: Some(tag), card: Card::Opt, elems: vec![Elem { tag: Some(tag), len: Len::Tlv, node: Node::Leaf(payload.to_vec()), announce: None, raw: Some(raw), prefix_override: None }], nested: None, enc: Enc::Bytes }
 }
 
@@ -85,18 +94,18 @@ fn apply(gs: &[Group], path: &[(usize, usize)], edit: &Edit) -> Option<(Vec<Grou
             }
             tampered = pos.len() + which.iter().min().unwrap();
         }
-        Edit::Foreign { at, tag, payload } => {
+        Edit::Foreign { at, tag, payload, bare } => {
             if *at > tg.len() || payload.len() > 100 {
                 return None;
             }
             for (k, &gi) in tg.iter().enumerate() {
                 if k == *at {
-                    seq.push(foreign_group(*tag, payload));
+                    seq.push(foreign_group(*tag, payload, *bare));
                 }
                 seq.push(lv[gi].clone());
             }
             if *at == tg.len() {
-                seq.push(foreign_group(*tag, payload));
+                seq.push(foreign_group(*tag, payload, *bare));
             }
             tampered = pos.len() + at;
         }
@@ -431,7 +440,14 @@ pub fn edits_of(t: &Table, name: &str, v: &Val, max_perm_full: usize, sampled_pe
                 continue;
             }
             let pl: Vec<u8> = (0..((h >> (at % 8)) % 9) as u8).map(|x| x.wrapping_mul(37) ^ at as u8).collect();
-            out.push((path.clone(), Edit::Foreign { at, tag: if at % 2 == 0 { f1 } else { f2 }, payload: pl }));
+            out.push((path.clone(), Edit::Foreign { at, tag: if at % 2 == 0 { f1 } else { f2 }, payload: pl, bare: false }));
+            // a single unknown byte with the next known group directly behind it; tag values a lenient reader might take for
+            // padding / fill bytes (00, 80, fe) among them
+            let specials: Vec<u16> = [0x00u16, 0x80, 0xfe, 0x01].into_iter().filter(|c| !known.contains(c)).collect();
+            if !specials.is_empty() {
+                let tag = specials[(at + (h >> 16) as usize % 2) % specials.len().min(2)];
+                out.push((path.clone(), Edit::Foreign { at, tag, payload: vec![], bare: true }));
+            }
         }
     }
     out
@@ -543,6 +559,7 @@ pub fn run(tier: Tier) -> i32 {
                     Edit::Permute(_) => "permute",
                     Edit::Duplicate { .. } => "duplicate",
                     Edit::Remove(_) => "remove",
+                    Edit::Foreign { bare: true, tag, .. } => if *tag == 0 { "foreign-bare-00" } else { "foreign-bare" },
                     Edit::Foreign { .. } => "foreign",
                 };
                 let sw = lvls.iter().find(|(p, _)| *p == path).unwrap().1;
